@@ -506,10 +506,13 @@ class Report:
         self.undecided.append(what)
 
     def finish(self, extra_coverage=None, inconclusive=None):
-        os.makedirs(os.path.join(VERIF, "evidence"), exist_ok=True)
-        os.makedirs(os.path.join(VERIF, "replays"), exist_ok=True)
+        # VERIF_OUT_DIR (used only when the checks are pointed at a seeded change, see evalmut.sh)
+        # keeps such runs from overwriting the evidence of the unchanged tree
+        OUT = os.environ.get("VERIF_OUT_DIR") or VERIF
+        os.makedirs(os.path.join(OUT, "evidence"), exist_ok=True)
+        os.makedirs(os.path.join(OUT, "replays"), exist_ok=True)
         import glob as _glob
-        for old in _glob.glob(os.path.join(VERIF, "replays", self.pid + "-*.json")):
+        for old in _glob.glob(os.path.join(OUT, "replays", self.pid + "-*.json")):
             os.remove(old)
         cov = dict(self.coverage)
         if extra_coverage:
@@ -523,7 +526,7 @@ class Report:
             "coverage": cov, "assumptions": self.assumptions,
             "wall_s": round(time.time() - self.t0, 2), "violations": len(self.violations),
         }
-        with open(os.path.join(VERIF, "evidence", self.pid + ".json"), "w") as f:
+        with open(os.path.join(OUT, "evidence", self.pid + ".json"), "w") as f:
             json.dump(ev, f, indent=1, ensure_ascii=False, default=str)
         for f in self.findings:
             if f["id"] in self.known:
@@ -543,7 +546,7 @@ class Report:
             for v in self.violations:
                 seen.setdefault(tuple(v["roles"]), []).append(v)
             for k, (roles, vs) in enumerate(sorted(seen.items())):
-                path = os.path.join(VERIF, "replays", "%s-%d.json" % (self.pid, k))
+                path = os.path.join(OUT, "replays", "%s-%d.json" % (self.pid, k))
                 with open(path, "w") as f:
                     json.dump({"property": self.pid, "roles": list(roles), "count": len(vs),
                                "cases": vs[:50]}, f, indent=1, ensure_ascii=False, default=str)
